@@ -15,6 +15,8 @@ class DgramNet(object):
         self.in_flight = []    # dict(src=(addr,port), dst=(addr,port), data=bytes, tos=int)
         self.next_port = 50000
         self.log = []          # every datagram ever sent (drained by the harness)
+        self.refuse_send = None   # number of the sendmsg() call (from 0) that the socket refuses once with ENOBUFS
+        self.send_calls = 0
 
     def allocate_port(self):
         self.next_port += 1
@@ -111,6 +113,10 @@ class VDgramSocket(object):
         dst = (address[0], address[1]) if address is not None else self.peer
         if dst is None:
             raise OSError(errno.EDESTADDRREQ, 'Destination address required')
+        call = self.net.send_calls
+        self.net.send_calls += 1
+        if self.net.refuse_send is not None and call == self.net.refuse_send:
+            raise OSError(errno.ENOBUFS, 'No buffer space available')
         dg = dict(src=self.addr, dst=dst, data=data, tos=tos)
         self.net.in_flight.append(dg)
         self.net.log.append(dict(dg))
